@@ -129,7 +129,12 @@ class Cfg:
         if spelling is not None and kind in ('file', 'filez'):
             # the same location, spelled differently (relative, doubled slashes, trailing slash, './' prefix)
             rel = os.path.relpath(self.dir)
-            self.dir = {'abs': self.dir, 'rel': rel, 'dot': './' + rel, 'dslash': os.path.dirname(self.dir) + '//' + os.path.basename(self.dir),
+            if spelling == 'special-names':
+                # a jug directory below directories that are named like the store's own special directories
+                self.dir = os.path.join(scratch, 'packs', 'locks', 'tempfiles', 'st-' + kind)
+                os.makedirs(os.path.dirname(self.dir), exist_ok=True)
+                rel = os.path.relpath(self.dir)
+            self.dir = {'abs': self.dir, 'special-names': self.dir, 'rel': rel, 'dot': './' + rel, 'dslash': os.path.dirname(self.dir) + '//' + os.path.basename(self.dir),
                         'trail': self.dir + '/', 'dotdot': os.path.join(os.path.dirname(self.dir), 'x', '..', os.path.basename(self.dir))}[spelling]
         if kind == 'redis':
             self.server = fakeredis.FakeServer()
@@ -245,7 +250,10 @@ def run_history(cfg, ops, values):
                 answers.append(r if isinstance(r, bool) else ('not-bool:%r' % (r,) if not isinstance(r, int) else bool(r)))
             elif kind == 'removeMany':
                 model_ops.append(op)
-                r = store.remove_many([keyname(k) for k in op[1]])
+                names_ = [keyname(k) for k in op[1]]
+                # callers pass lists, tuples, sets or one-shot iterators (`jug invalidate` passes a generator)
+                arg_ = [names_, tuple(names_), iter(names_), (x for x in names_)][(len(model_ops) + len(op[1])) % 4]
+                r = store.remove_many(arg_)
                 answers.append({'keys': sorted(i for i in range(NKEYS) if keyname(i) in set(r))})
             elif kind == 'list':
                 model_ops.append(op)
@@ -489,6 +497,46 @@ def real_cleanup(cfg, mode, active):
     return out
 
 
+def many_keys_lock_cleanup(run):
+    """stores with dozens of results and locks (more than any page / batch size of a backend): `cleanup --locks-only` removes every lock and
+    nothing else, `cleanup --failed-only` exactly the failed ones"""
+    import hashlib
+    scratch = core.scratch_dir()
+    try:
+        for kind in ('redis', 'file', 'dict'):
+            for mode in ('locksOnly', 'failedOnly'):
+                cfg = Cfg(kind, os.path.join(scratch, '%s-%s' % (kind, mode)))
+                os.makedirs(os.path.join(scratch, '%s-%s' % (kind, mode)), exist_ok=True)
+                store = cfg.open()
+                names = [hashlib.sha1(b'many-%d' % j).hexdigest().encode() for j in range(45)]
+                for j, nm in enumerate(names[:30]):
+                    store.dump(j, nm)
+                held, failed = names[25:36], names[36:45]
+                for nm in held + failed:
+                    assert store.getlock(nm).get()
+                for nm in failed:
+                    store.getlock(nm).fail()
+                saved_key = globals()['keyname']
+                try:
+                    real_cleanup(cfg, mode, [])
+                finally:
+                    pass
+                st2 = cfg.open()
+                left = [nm for nm in held + failed if st2.getlock(nm).is_locked()]
+                exp = [] if mode == 'locksOnly' else list(held)
+                lost = [nm for nm in names[:30] if not st2.can_load(nm)]
+                run.case(('many-keys', kind, mode), nontrivial=True)
+                run.count('many_keys_cleanups')
+                rp = {'kind': 'many-keys-cleanup', 'backend': kind, 'mode': mode}
+                if sorted(left) != sorted(exp):
+                    run.fail('cleanup-locks:%s:many' % mode, 'cleanup mode %s on a %s store with 30 results, 11 held and 9 failed locks: %d locks remain (expected %d: %s)'
+                             % (mode, kind, len(left), len(exp), 'none' if mode == 'locksOnly' else 'the held ones'), rp)
+                if lost:
+                    run.fail('cleanup-removes-results:%s:many' % mode, 'cleanup mode %s on a %s store removed %d results' % (mode, kind, len(lost)), rp)
+    finally:
+        core.rm_rf(scratch)
+
+
 def cleanup_family(run, drv, n):
     rng = core.rng_for(run.seed, 'c10')
     scratch = core.scratch_dir()
@@ -498,7 +546,7 @@ def cleanup_family(run, drv, n):
             mode = ['default', 'keepLocks', 'locksOnly', 'failedOnly'][(i // 5) % 4]
             d = os.path.join(scratch, 'c%d' % i)
             os.makedirs(os.path.join(d, 'x'))
-            spelling = ['abs', 'rel', 'dot', 'dslash', 'trail', 'dotdot'][(i // 20) % 6] if kind in ('file', 'filez') else None
+            spelling = ['abs', 'special-names', 'rel', 'dot', 'dslash', 'trail', 'dotdot'][(i // 5) % 7] if kind in ('file', 'filez') else None
             cfg = Cfg(kind, d, spelling)
             st = build_state(cfg, rng)
             active = sorted(rng.sample(range(NKEYS), rng.randint(0, NKEYS)))
